@@ -762,7 +762,16 @@ func (c *Ctx) checkLockBalance(r *Report, rule, rel string) {
 func (c *Ctx) checkSleepTimers(r *Report, m *gwModel) {
 	n := 0
 	for _, f := range c.repoFuncs("client") {
-		if f.Signature.Recv() == nil || !strings.Contains(typeStr(f.Signature.Recv().Type()), "sleepTransaction") || f.Parent() != nil {
+		if f.Signature.Recv() == nil || f.Parent() != nil {
+			continue
+		}
+		isHand := false
+		for _, hn := range c.handRolledTransactions("client") {
+			if typeStr(derefType(f.Signature.Recv().Type())) == "client."+hn {
+				isHand = true
+			}
+		}
+		if !isHand {
 			continue
 		}
 		arms := false
